@@ -456,5 +456,22 @@ def run_case(ctx, k, rng):
                 ctx.check("same NumPy seed => same bounds", (float(out2[0]), float(out2[1])) == (lb, ub), first=[lb, ub], second=out2, seed=s)
             except Exception as e:
                 ctx.exception("same NumPy seed => same bounds", e)
+    if true2 is not None and lbs and 2 * min(lbs) < true2 and mode in ("exact", "trees", "switch") and max(len(A), len(B)) <= 10:
+        # loose lower bound: the search can never stop early on "upper == lower", so every sampled mapping of both directions is
+        # consumed and the answer depends on the whole random stream - sweep further RNG states, both argument orders
+        nsweep = 10 if ctx.tier == "quick" else 120
+        ctx.note("rng-state sweeps on loose-bound pairs")
+        for s in rng.integers(0, 2 ** 31, nsweep).tolist():
+            P, Q = (A, B) if s % 2 else (B, A)
+            try:
+                out_s, _ = call(ctx, P, Q, mso, int(s))
+                lb_s, ub_s = float(out_s[0]), float(out_s[1])
+            except Exception as e:
+                ctx.exception("returns (lower, upper)", e, schedule="seed-sweep")
+                continue
+            if s % 2:
+                lbs.add(lb_s)
+            ctx.check("lower <= true mGH (exact oracle)", lb_s <= true2 / 2, lower=lb_s, true=true2 / 2, schedule="seed-sweep", seed=int(s), swapped_arguments=not s % 2)
+            ctx.check("true mGH <= upper (exact oracle)", true2 / 2 <= ub_s, upper=ub_s, true=true2 / 2, schedule="seed-sweep", seed=int(s), swapped_arguments=not s % 2)
     ctx.check("lower bound independent of the random stream", len(lbs) <= 1, lowers=sorted(lbs))
     ctx.note("wall_ms:" + mode, int(1000 * (_time.monotonic() - _t0)))
